@@ -262,7 +262,7 @@ def run(chk):
                 w.graph.add_edge(drv[0], lds[0])
             w.blackboxes.clear()
             if prob is None:
-                if not (c.inputs() <= w.inputs()) or w.outputs() != c.outputs():
+                if not (c.inputs() <= w.inputs() <= c.inputs() | {"clk"}) or w.outputs() != c.outputs():
                     prob = {"problem": "inputs/outputs changed", "inputs": sorted(w.inputs()), "outputs": sorted(w.outputs())}
             if prob is None:
                 prob = same_function(c, w, sorted(c.outputs()))
@@ -297,4 +297,31 @@ def run(chk):
             return r[1]
 
         stale_state_rule(chk, "C05.H.no-stale-state", _call, circuit_snapshot, FILE, fname)
+    # results must not depend on earlier calls (mutable default arguments, module-level tables); the caller's dict of
+    # extra flop connections is left alone
+    from ..stale import earlier_calls_rule
+    from ..pkgenv import Package as _Pkg
+
+    dcs = list(deep_circuits())
+    seq_inputs = [(f"{kn}#{rep}", (lambda cc=cc: cc.copy())) for rep in (1, 2) for kn, cc in dcs[:3]]
+    for fname, extra in (("insert_registers", (1,)), ("insert_registers", (2,)), ("limit_fanin", (2,)), ("limit_fanout", (2,))):
+        def _mk(fname=fname, extra=extra):
+            PF = _Pkg(repo)
+
+            def _call(cc):
+                r = PF.call(FILE, fname, cc, *extra)
+                if r[0] != "return":
+                    raise ModelRaise(r[1], r[2] if len(r) > 2 else "")
+                return r[1]
+            return _call
+
+        n_eval += earlier_calls_rule(chk, "C05.H.no-state-between-calls", _mk, circuit_snapshot, FILE, f"{fname}{extra}", seq_inputs)
+    for kn, cc in dcs[:3]:
+        mine = {"clk": sorted(cc.inputs())[0]}  # an existing net drives the clock pins
+        before = dict(mine)
+        r = P.call(FILE, "insert_registers", cc, 1, other_flop_io=mine)
+        if r[0] == "raise" and r[1] == "ValueError":
+            continue  # the default flop has no such pin: rejected, nothing to compare
+        chk.ob("C05.H.caller-dict-untouched", f"insert_registers::{kn}", mine == before, file=FILE, func="insert_registers", fact={"dict_after": str(mine)[:120], "result": str(r)[:60]},
+               expect="the other_flop_io dict passed in is not modified")
     chk.floor("template evaluations", n_eval, 150)
